@@ -1019,6 +1019,31 @@ Definition aholds (a : oapi) : bool := a_accepts a && a_keys a && a_timeout_ok a
 Definition acheck (a : oapi) : list bool :=
   [aagree a; a_accepts a; a_keys a; a_timeout_ok a; a_njobs_ok a; a_unset_ok a].
 
+(* ---- one optimise() call of a facade object that runs a real genetic optimiser (repeated calls) ---- *)
+Record ocall := {
+  c_maxpop : option Z;        (* max_pop_size GIVEN to the facade *)
+  c_nog : option nat;         (* num_of_generations GIVEN to the facade *)
+  c_popsize_given : Z;        (* pop_size GIVEN to the facade *)
+  c_popsize_entry : Z;        (* pop_size of the parameter object handed to the optimiser of this call *)
+  c_maxpop_entry : option Z;  (* max_pop_size of that object *)
+  c_sizes : list nat }.       (* sizes of the evolved (unlabelled) generations of this call *)
+
+(* every step of every call stays within the facade's max_pop_size and generation limit; the population size the
+   call starts from lies between the given one and the maximum (earlier calls adapt it in place) *)
+Definition ccheck (c : ocall) : list bool :=
+  [ match truthy_max (c_maxpop c) with
+    | Some m => forallb (fun n => Z.leb (Z.of_nat n) m) (c_sizes c)
+    | None => true
+    end;
+    match c_nog c with Some n => Nat.leb (List.length (c_sizes c)) n | None => true end;
+    match c_maxpop c, c_maxpop_entry c with
+    | Some m, Some m' => Z.eqb m m'
+    | None, None => true
+    | _, _ => false
+    end
+    && Z.leb (c_popsize_given c) (c_popsize_entry c)
+    && match truthy_max (c_maxpop c) with Some m => Z.leb (c_popsize_entry c) m | None => true end ].
+
 (* the executable form of the whole property on any observation *)
 Inductive observation := ObsUnit (c : ucase) | ObsRun (r : orun) | ObsApi (a : oapi).
 Definition agree (o : observation) : bool :=
